@@ -12,6 +12,7 @@ import (
 
 	sdk "github.com/cosmos/cosmos-sdk/types"
 	"github.com/cosmos/cosmos-sdk/x/authz"
+	"github.com/cosmos/cosmos-sdk/x/feegrant"
 	"github.com/cosmos/cosmos-sdk/types/query"
 	banktypes "github.com/cosmos/cosmos-sdk/x/bank/types"
 
@@ -247,6 +248,13 @@ func (w *World) Project(tr *Track) (res J) {
 		return false
 	})
 	res["grants"] = grants
+	// x/feegrant allowances: "granter/grantee" -> 1
+	fgrants := J{}
+	_ = w.App.FeeGrantKeeper.IterateAllFeeAllowances(ctx, func(g feegrant.Grant) bool {
+		fgrants[w.nameOf(g.Granter)+"/"+w.nameOf(g.Grantee)] = 1
+		return false
+	})
+	res["fgrants"] = fgrants
 	if !w.InBlock {
 		// a panicking query server is an observation (C17), not a harness failure
 		func() {
